@@ -1,4 +1,5 @@
 import hashlib
+import threading
 from functools import partial  # noqa: F401
 
 from pyab_experiment.binning.binning import deterministic_choice  # noqa: F401
@@ -38,7 +39,18 @@ class ExperimentEvaluator:
     def __init__(self, source_code: str) -> None:
         self.recompile(source_code)
 
+    # reading the checksum, installing the new function and storing the new checksum
+    # is one step: two threads doing it at once could leave the function of one
+    # source installed under the checksum of another (after which recompiling to
+    # that other source is silently skipped), so recompiles are serialised
+    _recompile_lock = threading.Lock()
+
     def recompile(self, source_code: str) -> None:
+        """Recompiles the source code (see _recompile); one recompile at a time."""
+        with self._recompile_lock:
+            self._recompile(source_code)
+
+    def _recompile(self, source_code: str) -> None:
         """Recompiles the source code.
 
         This method takes a string of source code and recompiles it.
